@@ -35,6 +35,9 @@ MODELS = [
 
 
 def reaction(name):
+    import os
+
+    os.environ.setdefault("TQDM_DISABLE", "1")
     import qrules
 
     CACHE.mkdir(parents=True, exist_ok=True)
@@ -135,8 +138,8 @@ def compare_models(a, b):
                             break
                 except Exception as e:  # noqa: BLE001
                     diffs.append((attr, f"lookup raises {e!r}"))
-        if a != b and not diffs:
-            diffs.append(("model", "model != loaded model although all attributes compare equal"))
+    if a != b and not diffs:
+        diffs.append(("model", "model != loaded model although all attributes compare equal"))
     return diffs
 
 
